@@ -37,10 +37,11 @@ VARIABLES l, bad, cnt,
           m,        \* the map: id -> [kind, loc]
           limT, limN, limP,   \* ids / paths whose probes are no longer judged (table probes, namespace probes, listings)
           unk,      \* ids whose status the map no longer knows (dual-mode directory fallback, a call answered against the map)
+          dirty,    \* the current scenario already has a failure
           prev,     \* previous observation
           meta,     \* [mode, special, alias, quoted, dollar, slashed, nonascii]
           scn
-tvars == <<l, bad, cnt, m, limT, limN, limP, unk, prev, meta, scn>>
+tvars == <<l, bad, cnt, m, limT, limN, limP, unk, dirty, prev, meta, scn>>
 
 SeqToSet(s) == {s[i] : i \in 1..Len(s)}
 Kind(c, id) == IF id \in DOMAIN c THEN c[id].kind ELSE "none"
@@ -162,7 +163,12 @@ Panics(obs) == (\E i \in 1..Len(obs.t) : obs.t[i].ex = "panic" \/ obs.t[i].de = 
                \/ (\E i \in 1..Len(obs.n) : obs.n[i].ex = "panic" \/ obs.n[i].de = "panic")
                \/ (\E i \in 1..Len(obs.lt) : obs.lt[i].res = "panic") \/ (\E i \in 1..Len(obs.ln) : obs.ln[i].res = "panic")
 
-AddBad(es) == IF es = {} THEN bad ELSE IF Len(bad) < 400 THEN bad \o SetToSeq(es) ELSE bad
+\* at most 25 entries are kept per class (property, deviation, what, cause): a frequent defect must not crowd out a
+\* rare one; the counters "bad_events" / "bad_scenarios" count all of them
+ClassOf(x) == <<x[5], x[6], x[7], x[8]>>
+AddBad(es) ==
+  LET keep == {x \in es : Cardinality({i \in 1..Len(bad) : ClassOf(bad[i]) = ClassOf(x)}) < 25} IN
+  IF keep = {} THEN bad ELSE bad \o SetToSeq(keep)
 
 Step(e) ==
   LET st == e.step
@@ -176,7 +182,9 @@ Step(e) ==
       \* 1. the call's own answer
       refused == exp = "ok" /\ ~ok
       resBad == IF e.res \in {"panic", "timeout"} THEN {ent("CatalogIsMap", e.res, "", op)}
-                ELSE IF refused /\ ~special THEN {ent("CatalogIsMap", "refused-valid-call", Cause(m, subj, subj, FALSE), op)}
+                ELSE IF refused /\ ~special
+                THEN {ent("CatalogIsMap", IF FindT(obs, subj) # FindT(prev, subj) \/ FindN(obs, subj) # FindN(prev, subj)
+                                          THEN "failed-call-changed-answer" ELSE "refused-valid-call", Cause(m, subj, subj, FALSE), op)}
                 ELSE IF exp = "err" /\ ok THEN {ent("CatalogIsMap", AcceptClass(m, st), Cause(m, subj, subj, TRUE), op)}
                 ELSE {}
       \* 2. the map after the call (an accepted call is applied even when the map would have refused it)
@@ -248,6 +256,7 @@ Step(e) ==
       allBad == resBad \cup locBad \cup tBad \cup nBad \cup ltBad \cup lnBad \cup panicBad \cup pageBad
   IN
   /\ bad' = AddBad(allBad)
+  /\ dirty' = (dirty \/ allBad # {})
   /\ m' = m2
   \* (an object that was created but is not found afterwards is of unknown status too)
   /\ unk' = unk \cup lost \cup {x \in {subj} : created /\ ((Kind(m2, x) = "table" /\ \E i \in tWrong : obs.t[i].id = x)
@@ -259,6 +268,8 @@ Step(e) ==
   /\ prev' = obs
   /\ cnt' = [cnt EXCEPT ![op] = @ + 1,
                         !["ok_steps"] = @ + (IF ok THEN 1 ELSE 0),
+                        !["bad_events"] = @ + Cardinality(allBad),
+                        !["bad_scenarios"] = @ + (IF ~dirty /\ allBad # {} THEN 1 ELSE 0),
                         !["probes_judged"] = @ + Cardinality(tJudged) + Cardinality(nJudged) + Len(obs.lt) + Len(obs.ln),
                         !["probes_existing"] = @ + Cardinality({i \in tJudged : Kind(m2, obs.t[i].id) = "table"})
                                                  + Cardinality({i \in nJudged : Kind(m2, obs.n[i].id) = "ns"}),
@@ -275,21 +286,21 @@ Step(e) ==
   /\ UNCHANGED <<meta, scn>>
 
 Reset(e) ==
-  /\ m' = <<>> /\ limT' = {} /\ limN' = {} /\ limP' = {} /\ unk' = {}
+  /\ m' = <<>> /\ limT' = {} /\ limN' = {} /\ limP' = {} /\ unk' = {} /\ dirty' = (e.build # "ok")
   /\ prev' = e.obs
   /\ meta' = [mode |-> e.mode, special |-> e.meta.special, alias |-> e.meta.alias, quoted |-> e.meta.quoted,
               dollar |-> e.meta.dollar, slashed |-> e.meta.slashed, nonascii |-> e.meta.nonascii]
   /\ scn' = e.scn
   /\ bad' = IF e.build = "ok" THEN bad ELSE AddBad({<<l, e.scn, 0, "build", "CatalogIsMap", "none", "namespace-cannot-be-built", e.mode, "build">>})
-  /\ cnt' = [cnt EXCEPT !["scenarios"] = @ + 1, ![e.mode] = @ + 1]
+  /\ cnt' = [cnt EXCEPT !["scenarios"] = @ + 1, ![e.mode] = @ + 1, !["bad_scenarios"] = @ + (IF e.build # "ok" THEN 1 ELSE 0)]
 
-Counters == {"scenarios", "dir", "manifest", "dual", "ok_steps", "probes_judged", "probes_existing", "paged_listings", "multi_page_listings",
+Counters == {"scenarios", "dir", "manifest", "dual", "ok_steps", "bad_events", "bad_scenarios", "probes_judged", "probes_existing", "paged_listings", "multi_page_listings",
              "info_name_refused", "info_idempotent_accept", "info_parentless_accepted", "info_parentless_refused",
              "info_page_longer_than_limit", "info_dual_deregistered_stays_visible", "special_name_steps", "special_name_accepted",
              "create_ns", "drop_ns", "describe_ns", "ns_exists", "list_ns", "create_table", "create_empty_table", "drop_table",
              "register_table", "deregister_table", "describe_table", "table_exists", "list_tables", "reopen"}
 Init == /\ l = 1 /\ bad = <<>> /\ cnt = [c \in Counters |-> 0]
-        /\ m = <<>> /\ limT = {} /\ limN = {} /\ limP = {} /\ unk = {}
+        /\ m = <<>> /\ limT = {} /\ limN = {} /\ limP = {} /\ unk = {} /\ dirty = FALSE
         /\ prev = [t |-> <<>>, n |-> <<>>, lt |-> <<>>, ln |-> <<>>]
         /\ meta = [mode |-> "", special |-> <<>>, alias |-> <<>>, quoted |-> <<>>, dollar |-> <<>>, slashed |-> <<>>, nonascii |-> <<>>]
         /\ scn = 0
